@@ -22,6 +22,10 @@ from frouros.detectors.data_drift.streaming import MMD as MMDStreaming, Incremen
 UNIV = [PSI, HellingerDistance, BhattacharyyaDistance, HINormalizedComplement, JS, KL, EMD, EnergyDistance, AndersonDarlingTest, BWSTest,
         ChiSquareTest, CVMTest, KSTest, KuiperTest, MannWhitneyUTest, WelchTTest]
 MULTI = [MMD]
+# options of ONE compare call (accepted by the named test): they must not stick to the detector, to its class or to other detectors
+CALL_OPTIONS = {KSTest: [{"alternative": "less"}, {"alternative": "greater", "method": "asymp"}], BWSTest: [{"alternative": "less"}],
+                MannWhitneyUTest: [{"alternative": "less"}, {"use_continuity": False}], WelchTTest: [{"alternative": "less"}],
+                CVMTest: [{"method": "asymptotic"}], AndersonDarlingTest: [{"midrank": False}]}
 KIND = {MissingFitError: "MissingFit", MismatchDimensionError: "MismatchDimension", DimensionError: "Dimension", InsufficientSamplesError: "InsufficientSamples"}
 
 
@@ -139,6 +143,26 @@ def history(out: Outcome, rng, cls, lines, expect, well_formed: bool = False) ->
                     if res_key(fresh.compare(X=x)[0]) != res_key(res):
                         out.violation(f"{cls.__name__}: result differs from a fresh detector fitted on the same reference (history-dependent compare)", rep)
                         return
+                if cls in CALL_OPTIONS and rng.random() < (0.7 if well_formed else 0.3):
+                    # a call WITH options in between (its own result is C12's business): the plain call before it and the plain call after it are the same call
+                    try:
+                        det.compare(X=x, **rng.choice(CALL_OPTIONS[cls]))
+                    except Exception:  # noqa: BLE001
+                        pass
+                    out.count("compare_calls_with_options_in_between")
+                    try:
+                        after_opt = res_key(det.compare(X=x)[0])
+                    except Exception as e:  # noqa: BLE001
+                        out.violation(f"{cls.__name__}: after a compare call with options the plain compare raises {type(e).__name__}: {e}", rep)
+                        return
+                    if after_opt != res_key(res):
+                        out.violation(f"{cls.__name__}: the same plain compare gives another result after a compare call with options (the options of one call changed the detector)", rep)
+                        return
+                    other = cls()
+                    other.fit(X=det.X_ref.copy())
+                    if not (cls is BWSTest and x.shape[0] + det.X_ref.shape[0] > 12) and res_key(other.compare(X=x)[0]) != res_key(res):
+                        out.violation(f"{cls.__name__}: a NEW detector gives another result after a compare call with options on a different instance (state shared through the class)", rep)
+                        return
                 results.setdefault(fit_no, []).append((x, res_key(res)))
                 for (xo, ko) in results[fit_no][:-1][-2:]:
                     if res_key(det.compare(X=xo)[0]) != ko:
@@ -160,6 +184,10 @@ def history(out: Outcome, rng, cls, lines, expect, well_formed: bool = False) ->
             if det.X_ref is not None:
                 out.violation(f"{cls.__name__}: reset did not return the detector to the unfitted state", rep)
                 return
+        if kind in ("Library", "Other") and well_formed and op == "compare" and fitted_shape is not None and isinstance(x, np.ndarray):
+            # a fitted detector, a 1-D (MMD: 2-column) sample of 4-6 finite values of the fitted width: nothing to reject
+            out.violation(f"{cls.__name__}: compare on a well-formed sample after a successful fit raised {type(err).__name__}: {err}", rep)
+            return
         if kind == "Library":
             break       # scipy rejected a shape the repo's checks let through: not judged, stop the history here
         lines.append({"fit": "x bf ", "compare": "x bc ", "reset": "x br"}[op] + ("" if op == "reset" else f"{shape_word(x)} {step}"))
